@@ -6,7 +6,7 @@ const code = runSem("C07", "c07", (d) => ({
     evaluations: d.evaluations,
     distinct_nontrivial: d.distinct_nontrivial_rows,
     rule:
-      "computed semantic types S = x\\y, x&y, keyof x, x[k] for x (and y) over the C05 type pool incl. recursive operands and tuples with an any rest, k over {\"a\",\"b\",\"a\"|\"b\",string,number,0,1,2,3}; operator model: for list operands (arrays, tuples with and without rest) x[k] must have exactly the members of the type the operand declares at position k (reference semantics over the written term); keyof must hold exactly the declared keys of objects over {a, b} with no / a string / a number index signature, alone and in all unions and intersections of two (171 operands); stage 1: semtype_to_runtypes(S) must denote the same set: for every value of the universe mem(S,v) (independent evaluator over the atom tables) == plain structural reading of the materialised Runtype (Not = complement); to_sem_type(materialised) is_same_type S; stage 2: what is handed to code generation (after remove_nots_of_intersections_and_empty_of_union for differences/intersections, raw for keyof/indexed access) contains no StNot / empty AnyOf / Function, every Ref resolves, helper names are defined once; post-processing never rejects a value of the computed type. distinct_nontrivial = distinct non-constant membership rows of computed types",
+      "computed semantic types S = x\\y, x&y, keyof x, x[k] for x (and y) over the C05 type pool incl. recursive operands and tuples with an any rest, k over {\"a\",\"b\",\"a\"|\"b\",string,number,0,1,2,3}; operator model: for list operands (arrays, tuples with and without rest) x[k] must have exactly the members of the type the operand declares at position k (reference semantics over the written term); keyof must hold exactly the declared keys of objects over {a, b} with no / a string / a number index signature, alone and in all unions and intersections of two (171 operands); differences of unknown and Set / Map / Array types keep members of that container kind; stage 1: semtype_to_runtypes(S) must denote the same set: for every value of the universe mem(S,v) (independent evaluator over the atom tables) == plain structural reading of the materialised Runtype (Not = complement); to_sem_type(materialised) is_same_type S; stage 2: what is handed to code generation (after remove_nots_of_intersections_and_empty_of_union for differences/intersections, raw for keyof/indexed access) contains no StNot / empty AnyOf / Function, every Ref resolves, helper names are defined once; post-processing never rejects a value of the computed type. distinct_nontrivial = distinct non-constant membership rows of computed types",
     samples: d.samples,
     exhaustive: true,
     computed_types: d.computed_types,
@@ -14,6 +14,7 @@ const code = runSem("C07", "c07", (d) => ({
     pairs_where_postprocessing_widened: d.pairs_where_postprocessing_widened,
     indexed_access_model_checks: d.indexed_access_model_checks,
     keyof_model_checks: d.keyof_model_checks,
+    container_difference_checks: d.container_difference_checks,
   },
   assumptions: ["atoms are read structurally on both sides (lib.rs sem_mem / runtype_mem)", "widening by the post-processing step is an observation, not a violation (DESIGN C07)"],
   vacuous: d.distinct_nontrivial_rows < 20 ? "vacuous: too few distinct computed types" : null,
